@@ -49,6 +49,10 @@ class Gen:
         r = self.r
         if kind == "String":
             m = r.random()
+            if m < 0.2 and n > 1:
+                # NUL-padded text, as exporters send fixed-length strings
+                k = r.randrange(1, n)
+                return [r.randrange(97, 123) for _ in range(k)] + [0] * (n - k)
             if m < 0.7:
                 return [r.randrange(32, 127) for _ in range(n)]
             if m < 0.85:
@@ -336,7 +340,8 @@ def conformant_session(g, npk=8, unknown=True, multi_tmpl=True, parsers=("A", "B
 
 
 def protocols_session(g):
-    """every one of the 256 protocol numbers, in V5 and V7 records"""
+    """every one of the 256 protocol numbers, in V5 and V7 records and in a V9 protocol field;
+    V5 / V7 packets with the largest record counts that fit a datagram (fully materialised)"""
     it5 = iter(range(256))
     it7 = iter(range(256))
     ops = ops_reset(("A",))
@@ -344,6 +349,15 @@ def protocols_session(g):
         ops.append(call("A", g.fixed(5, 32, it5)))
     for _ in range(8):
         ops.append(call("A", g.fixed(7, 32, it7)))
+    # V9: template {protocol(1), l4 src port(2)}; 256 records, one per protocol number
+    ops.append(call("A", g.v9_hdr(1) + g.set_(0, b16(256) + b16(2) + b16(4) + b16(1) + b16(7) + b16(2))))
+    body = [x for pn in range(256) for x in [pn, pn, 255 - pn]]
+    ops.append(call("A", g.v9_hdr(1) + g.set_(256, body)))
+    ops += ops_reset(("A",))
+    ops.append(call("A", g.fixed(5, 1364)))
+    ops.append(call("A", g.fixed(7, 1259)))
+    ops.append(call("A", g.fixed(5, 1364)[:-1]))        # one byte short of the announced 1364 records
+    ops.append(call("A", g.fixed(7, 1259)[:-52]))       # one whole record short
     return ops
 
 
